@@ -455,6 +455,7 @@ func (r *Runner) Apply(k int, op OpSpec) {
 	}
 	if r.Prop != "C02" {
 		r.oracleC03(s, k, op)
+		r.oracleReceipts(s, k)
 	}
 }
 
@@ -590,6 +591,49 @@ func (r *Runner) oracleSound(s *Session, k int) {
 	for name, h := range map[string]common.Hash{"LastBlock": core.GetHeadBlockHash(s.DB), "LastHeader": core.GetHeadHeaderHash(s.DB), "LastFast": core.GetHeadFastBlockHash(s.DB)} {
 		if _, ok := t.ByHash[h]; h != (common.Hash{}) && !ok {
 			r.C.Violate("head-pointer-unknown-block/"+tag, "a head pointer names a hash that was never delivered: "+name, r.replay(k, nil))
+		}
+	}
+}
+
+// oracleReceipts: "transaction lookups resolve to the receipts of the canonical block".  For every block of
+// the block head's chain that the number index names: its receipts are stored, there is one per
+// transaction, and every transaction whose lookup entry names this block resolves through GetReceipt to a
+// receipt with that transaction hash, block hash and index.
+func (r *Runner) oracleReceipts(s *Session, k int) {
+	if s.Name == "h" || s.Dead {
+		return
+	}
+	t := r.T
+	head, ok := t.ByHash[s.BC.CurrentBlock().Hash()]
+	if !ok {
+		return
+	}
+	tag := fmt.Sprintf("%s/%s/op%d", r.Sc.Name, s.Name, k)
+	for b := head; b != 0; b = t.Spec[b].Parent {
+		h, n := t.Blocks[b].Hash(), t.Num[b]
+		if core.GetCanonicalHash(s.DB, n) != h || len(core.GetBodyRLP(s.DB, h, n)) == 0 {
+			continue // reported by the number-index / data clauses
+		}
+		rcs := core.GetBlockReceipts(s.DB, h, n)
+		if rcs == nil || len(rcs) != len(t.TxsOf[b]) {
+			if rcs == nil && len(t.TxsOf[b]) == 0 && s.Pruning {
+				continue // an EMPTY receipt-less block on a pruning node: the known pruned-side-block class, reported by the data clause
+			}
+			r.C.Violate("canonical-block-without-receipts/"+tag, "a canonical block's receipts are not stored (or not one per transaction): GetBlockReceipts / GetReceiptsByHash cannot serve it",
+				r.replay(k, map[string]interface{}{"node": b, "height": n, "transactions": len(t.TxsOf[b]), "receipts": len(rcs), "receipts_missing": rcs == nil}))
+			return
+		}
+		for i, th := range t.TxsOf[b] {
+			lb, _, li := core.GetTxLookupEntry(s.DB, th)
+			if lb != h {
+				continue // the lookup clause reports entries that are missing or point elsewhere
+			}
+			rc, rb, _, ri := core.GetReceipt(s.DB, th)
+			if rc == nil || rc.TxHash != th || rb != h || ri != uint64(i) || li != uint64(i) {
+				r.C.Violate("lookup-receipt-mismatch/"+tag, "a transaction's lookup entry names a canonical block but GetReceipt does not return that transaction's receipt at that block and index",
+					r.replay(k, map[string]interface{}{"node": b, "tx_index": i, "receipt_found": rc != nil}))
+				return
+			}
 		}
 	}
 }
@@ -761,7 +805,7 @@ func (r *Runner) oracleC03(s *Session, k int, op OpSpec) {
 					sharedRoot = true
 				}
 			}
-			if s.Pruning && miss == "receipts " && sharedRoot && anc != 0 {
+			if s.Pruning && miss == "receipts " && sharedRoot && anc != 0 && len(t.TxsOf[anc]) == 0 {
 				r.C.Violate("pruned-side-block-canonical-without-receipts", "a block stored through the ErrPrunedAncestor path (WriteBlockWithoutState: no receipts) became canonical without being re-executed because its state root already existed: GetReceiptsByHash returns nil for a canonical block",
 					r.replay(k, map[string]interface{}{"height": n, "node": anc}))
 			} else {
